@@ -24,6 +24,7 @@ func cmdSlice(args []string) {
 	tags := fs.String("tags", "", "")
 	out := fs.String("out", "", "")
 	pkgname := fs.String("pkgname", "", "")
+	skipBodiless := fs.Bool("skip-bodiless", false, "omit functions without body (a stand-in file provides them)")
 	var overlays, roots, rewrites multi
 	fs.Var(&overlays, "overlay", "virtual=real")
 	fs.Var(&roots, "root", "root declaration name")
@@ -47,7 +48,7 @@ func cmdSlice(args []string) {
 		kv := strings.SplitN(r, "=", 2)
 		rw[kv[0]] = kv[1]
 	}
-	b, err := gofe.Slice(lc, roots, rw, *pkgname)
+	b, err := gofe.Slice(lc, roots, rw, *pkgname, *skipBodiless)
 	if err != nil {
 		fatal(err)
 	}
